@@ -60,6 +60,7 @@ func checkC09(ctx *Ctx, r *Report) {
 	c16ThirdHunt(ctx, r)
 	c09FifthHunt(ctx, r)
 	c09SixthHunt(ctx, r)
+	c09SeventhHunt(ctx, r)
 	c08UnionReuseComparesBranches(ctx, r)
 }
 
@@ -2129,4 +2130,83 @@ func c09SixthHunt(ctx *Ctx, r *Report) {
 	}
 	r.Count("hunted clauses of the builders (6th hunt)", n)
 	r.Floor("hunted clauses of the builders (6th hunt)", 3)
+}
+
+// c09SeventhHunt — sixth hunt of C09 (the veneers that make options out of the fields of a struct):
+//   - struct_fields_as_options and struct_fields_as_arguments give the option the constraints of a field typed by a
+//     reference to a scalar, as the builder of the struct itself does (constrainedFieldToOption);
+//   - struct_fields_as_options makes no option of a field whose value the schema fixes;
+//   - (finding, shared) the Go builder of a named optional of a struct.
+func c09SeventhHunt(ctx *Ctx, r *Report) {
+	n := 0
+	p := ctx.Pkg("internal/veneers/option")
+	if p == nil {
+		r.Undecided("anchor lost: internal/veneers/option")
+		return
+	}
+	info := p.TypesInfo
+	for _, name := range []string{"StructFieldsAsOptionsAction", "StructFieldsAsArgumentsAction"} {
+		fd, _ := ctx.DeclOf(ctx.LookupFunc("internal/veneers/option", name))
+		if fd == nil {
+			r.Undecided("anchor lost: option.%s", name)
+			continue
+		}
+		resolved := map[types.Object]bool{}
+		ast.Inspect(fd.Body, func(m ast.Node) bool {
+			as, ok := m.(*ast.AssignStmt)
+			if !ok || len(as.Lhs) != 1 || len(as.Rhs) != 1 {
+				return true
+			}
+			if c, ok := ast.Unparen(as.Rhs[0]).(*ast.CallExpr); ok {
+				if f := callee(info, c); f != nil && (f.Name() == "ResolveToType" || f.Name() == "ResolveRefs") {
+					if id, ok := as.Lhs[0].(*ast.Ident); ok {
+						if o := objOf(info, id); o != nil {
+							resolved[o] = true
+						}
+					}
+				}
+			}
+			return true
+		})
+		through := false
+		ast.Inspect(fd.Body, func(m ast.Node) bool {
+			sel, ok := m.(*ast.SelectorExpr)
+			if !ok || sel.Sel.Name != "Constraints" {
+				return true
+			}
+			ast.Inspect(sel.X, func(q ast.Node) bool {
+				if id, ok := q.(*ast.Ident); ok && resolved[info.Uses[id]] {
+					through = true
+				}
+				return true
+			})
+			return true
+		})
+		n++
+		r.Check(through, "derive/veneer-constraints-through-references", "option."+name+" reads the constraints of the fields it makes arguments of", fd.Pos(), "also through a reference to a scalar",
+			"option."+name+" reads the constraints of inline scalars only: with `#Name: string & strings.MaxRunes(5); Pos: {label: #Name}` and the veneer on Obj.pos, Obj().label(\"toolong\") is accepted while Pos().label(\"toolong\") raises ValueError — and Python has no later validation")
+	}
+	if fd, _ := ctx.DeclOf(ctx.LookupFunc("internal/veneers/option", "StructFieldsAsOptionsAction")); fd != nil {
+		skips := false
+		ast.Inspect(fd.Body, func(m ast.Node) bool {
+			rs, ok := m.(*ast.RangeStmt)
+			if !ok || !strings.HasSuffix(exprString(rs.X), ".Fields") {
+				return true
+			}
+			for _, st := range rs.Body.List {
+				if is, ok := st.(*ast.IfStmt); ok && strings.Contains(exprString(is.Cond), "IsConcreteScalar()") && len(is.Body.List) == 1 {
+					if br, ok := is.Body.List[0].(*ast.BranchStmt); ok && br.Tok == token.CONTINUE {
+						skips = true
+					}
+				}
+			}
+			return true
+		})
+		n++
+		r.Check(skips, "derive/veneer-options-skip-constants", "option.StructFieldsAsOptionsAction makes an option of every field of the struct", fd.Pos(), "but of those whose value the schema fixes",
+			"struct_fields_as_options turns every field into an option, constants included: `Pos: {type: \"point\", x: int64}` with the veneer on Obj.pos gives Obj an option Type() — NewObjBuilder().Type(\"line\").Build() returns {\"pos\":{\"type\":\"line\",\"x\":0}} and no error, while the builder of Pos has no such option")
+	}
+	n += c06GoNamedOptionalBuilder(ctx, r)
+	r.Count("hunted clauses of the builder-validation rules (7th hunt)", n)
+	r.Floor("hunted clauses of the builder-validation rules (7th hunt)", 4)
 }
